@@ -13,9 +13,9 @@ for m in sorted(glob.glob('/verif/seeded/%s-*/meta.json' % pid)):
     note = (json.load(open(m)).get('needs_to_manifest') or '').strip().replace("\n", " ")
     prior.append("  - " + note[:420])
 PRIOR = ""
-if prior and (os.environ.get("WAVE3") or os.environ.get("WAVE4") or os.environ.get("WAVE5") or os.environ.get("WAVE6")):
+if prior and (os.environ.get("WAVE3") or os.environ.get("WAVE4") or os.environ.get("WAVE5") or os.environ.get("WAVE6") or os.environ.get("WAVE8")):
     PRIOR = "\n\nOther people have ALREADY proposed the following changes for this property; yours must be genuinely different (different mechanism, different code site or different trigger), not variations of these:\n" + "\n".join(prior) + "\n"
-NUM = "THREE" if (os.environ.get("WAVE3") or os.environ.get("WAVE4") or os.environ.get("WAVE5") or os.environ.get("WAVE6")) else "TWO"
+NUM = "THREE" if (os.environ.get("WAVE3") or os.environ.get("WAVE4") or os.environ.get("WAVE5") or os.environ.get("WAVE6") or os.environ.get("WAVE8")) else "TWO"
 if os.environ.get("WAVE5"):
     PRIOR += """
 Many obvious ideas are taken (see the list above), so dig deeper. Favour changes of these kinds (at least two of your three):
@@ -24,6 +24,16 @@ Many obvious ideas are taken (see the list above), so dig deeper. Favour changes
   (h) TWO METHODS ON ONE OBJECT: calling one public method changes what a later call of another public method on the same object (or on another object of the same class, or in the same process) returns;
   (i) DEFAULTS: a default value that is evaluated once, shared, or differs subtly from what the documentation says, so that only callers relying on the default (or only callers NOT relying on it) are affected;
   (j) OFF-BY-ONE AT A DOCUMENTED BOUNDARY that toy examples do not touch (first/last line of a file, first/last feature of a chromosome, exactly N items where N is a constant in the code, zero-length or one-base features, coordinate 1 or the largest supported coordinate).
+"""
+
+if os.environ.get("WAVE8"):
+    PRIOR += """
+A great many ideas are taken (see the list above). This time work differently:
+  1. First list, for yourself, every function and branch in the code areas named above (and the helpers in gffutils/helpers.py, feature.py, parser.py, iterators.py, constants.py, attributes.py, bins.py, merge_criteria.py, convert.py that they call) that can influence whether the property holds.
+  2. Strike out every function / branch that one of the earlier proposals above already changes.
+  3. Choose your three changes among what is LEFT - code sites nobody has touched yet. If a function was touched, a different branch of it still counts as untouched.
+  4. Keep each change SMALL: one token or one line where possible - a comparison operator, a boundary (+1 / -1), a default value, a dropped clause of a condition, a dropped statement, two swapped arguments, the wrong one of two similarly named variables, a `break` for a `continue`, `is None` for falsy, an early `return`. No new helper functions, no caches, no refactorings this time.
+The change must still break the property for some input and keep the 74 tests passing; say in the note which untouched site you picked and why the existing proposals do not cover it.
 """
 
 if os.environ.get("WAVE6"):
